@@ -249,6 +249,7 @@ func checkC17(p *Prog, r *Report) {
 	ruleC17URL(p, a, r)
 	ruleC17Strip(p, a, r)
 	ruleC17TagNames(p, a, r)
+	ruleC17Once(p, a, r)
 
 	// ---- safe
 	r.Begin("R-C17-SAFE", "safe returns its input itself, unchanged, with a nil error", 1)
